@@ -73,7 +73,16 @@ class C11:
     prop = PROP
     level = "exploration"
     line_modules = seams.TARGET_MODULES
-    policy_weights = (0.5, 0.3, 0.2)
+    policy_weights = (0.45, 0.25, 0.15, 0.15)  # random walk, PCT, single pre-emption, race-directed
+
+    def policy(self, case, rng):
+        from dsim import harness
+
+        if case.get("force_race"):
+            return {"kind": "race"}
+        if case["cfg"].get("storm"):
+            return harness.draw_policy(rng, (0.4, 0.2, 0.1, 0.3))
+        return harness.draw_policy(rng, self.policy_weights)
 
     def opcode_modules(self, case):
         g = case["cfg"].get("opcode", "none")
@@ -99,6 +108,10 @@ class C11:
             "rps": rng.choice([4, 20]), "clock": "frozen", "const_height": rng.random() < 0.5,
         }
         maxops = 6 if thorough else 4
+        if kind == "C" and rng.random() < 0.2:
+            cfg["storm"] = True
+            cfg["display"] = "progress" if rng.random() < 0.7 else "live"
+            cfg["auto_refresh"] = False
         threads = []
         counters = [0] * nthreads
         fid = [0]
@@ -195,7 +208,18 @@ class C11:
                         ops.append(["update", frame(), rng.random() < 0.7])
                     else:
                         ops.append(["advance", t, 1] if rng.random() < 0.5 else ["vis", t, rng.random() < 0.5, True])
-            if kind == "C" and t != 0 and rng.random() < 0.15:
+            if kind == "C" and cfg.get("storm") and t == 1:
+                # "restart storm": this thread stops and starts the shared display over and over
+                # while the others print -- every print meets a display that is going away or
+                # coming back at some point of its hook evaluation / render / write
+                ops = []
+                for _ in range(rng.randint(2, 3)):
+                    ops.extend([["dstop"], ["dstart"]])
+                    if rng.random() < 0.3:
+                        ops.append(["refresh"])
+            elif kind == "C" and cfg.get("storm"):
+                ops = [simple(t) if rng.random() < 0.85 else ["block", [simple(t), simple(t)]] for _ in range(rng.randint(2, maxops))]
+            if kind == "C" and t != 0 and rng.random() < 0.15 and not cfg.get("storm"):
                 ops.insert(0, ["dstart"])  # races with the owner's start()
             if kind == "C" and t == 0 and rng.random() < 0.1:
                 j = rng.randrange(len(ops) + 1)
@@ -204,6 +228,19 @@ class C11:
         init = frame() if cfg["display"] == "live" else None
         return {"kind": kind, "cfg": cfg, "threads": threads, "init": init,
                 "stop_waits": rng.random() < (0.7 if kind == "C" else 0.5)}
+
+    def expand(self, case, res, rng, tier):
+        """A restart storm is also run under several race-directed plans (each sub-run draws its own
+        plan from the dry run of the same case: another check-then-act place, another store, another
+        boundary at which the storing thread is held)."""
+        if not case["cfg"].get("storm") or case.get("force_race") or res["harness_error"] or res["violations"]:
+            return []
+        out = []
+        for _ in range(6 if tier == "quick" else 16):
+            c = copy.deepcopy(case)
+            c["force_race"] = True
+            out.append(c)
+        return out
 
     def setup(self, sim, case, env):
         return Multi(sim, case, env)
